@@ -20,11 +20,12 @@
 (*  "leaper"  kind, sq, att             knight / king tables               *)
 (*  "attackmap" b, white, att           whole attack map of a crowded board *)
 (*  "board"   obs, sum                  transient board: C12 invariants    *)
+(*  "boardkey" obs, parts               transient board: key = XOR of parts *)
 (*  "matescore" pos, kind, scores, mm   mate / stalemate scores by depth   *)
 (*  "score"   pos, hm, scores, static, mm   evaluate::score composition   *)
 (*  "render"  pos, rows                 Display of the board               *)
 (***************************************************************************)
-EXTENDS Notation, Json, IOUtils
+EXTENDS Notation, Json, IOUtils, Bitwise
 
 Recs == ndJsonDeserialize(IOEnv.TRACE)
 NRec == Len(Recs)
@@ -105,6 +106,20 @@ CheckMirror(r) ==
   \* mm = the smallest magnitude of any mate score the code produced in this run (see "matescore")
   /\ ("mm" \notin DOMAIN r \/ (Abs1(r.a) < r.mm /\ Abs1(r.b) < r.mm)
         \/ Bad("static score not strictly below every mate score", <<r.a, r.b, r.mm>>))
+
+\* C05 on a board observed between a move and its undo inside generation / search (hook H5): the logged key is
+\* the XOR of the listed constants -- the base, one per man on the board, the rights set's, the target's (read
+\* black-box by the recorder exactly as Trace_Tables reads them; 64-bit values as four 16-bit limbs)
+X4(a, b) == << a[1] ^^ b[1], a[2] ^^ b[2], a[3] ^^ b[3], a[4] ^^ b[4] >>
+RECURSIVE FoldX(_, _, _)
+FoldX(s, j, acc) == IF j > Len(s) THEN acc ELSE FoldX(s, j + 1, X4(acc, s[j]))
+CheckBoardKey(r) ==
+  LET o == r.obs
+      men == Cardinality({ q \in Sq : o.b[q] # 0 })
+      want == 2 + men + (IF o.ep = 0 THEN 0 ELSE 1)
+  IN /\ (Len(r.parts) = want \/ Bad("harness listed the wrong number of key constants", <<Len(r.parts), want>>))
+     /\ (FoldX(r.parts, 1, <<0, 0, 0, 0>>) = o.key
+          \/ Bad("the key of a board seen between a move and its undo is not the XOR of the constants of its position", [cr |-> o.cr, ep |-> o.ep, turn |-> o.turn]))
 
 \* C18 on the leaf evaluation itself (evaluate::score: terminal verdicts included): a position without castling
 \* rights and its colour-swapped, rotated twin (en-passant target carried along) score exactly opposite
@@ -202,6 +217,7 @@ Ok == lvl = 2 =>
         [] r.t = "leaper" -> CheckLeaper(r)
         [] r.t = "attackmap" -> CheckAttackMap(r)
         [] r.t = "board" -> CheckBoard(r)
+        [] r.t = "boardkey" -> CheckBoardKey(r)
         [] r.t = "matescore" -> CheckMateScore(r)
         [] r.t = "score" -> CheckScore(r)
         [] r.t = "render" -> CheckRender(r)
